@@ -28,7 +28,8 @@ def _c07_after(prop, tier, rc, gdt=False):
     try:
         subprocess.check_call(["rsync", "-a", "--exclude", "/target", "--exclude", "/.git", "--exclude", "/testing", os.environ.get("VERIF_REPO", "/repo") + "/", scratch + "/"])
         out = os.path.join(scratch, "m.json")
-        p = subprocess.run(["python3-vt", os.path.join(verif, "tools", "mir2smt.py"), scratch, out] + (["--gdt"] if gdt else []), capture_output=True, text=True, timeout=3000)
+        menv = dict(os.environ, VERIF_M_MAXES=("2,3,8,16,64" if tier == "thorough" else "2,3,8"))
+        p = subprocess.run(["python3-vt", os.path.join(verif, "tools", "mir2smt.py"), scratch, out] + (["--gdt"] if gdt else []), capture_output=True, text=True, timeout=3000, env=menv)
         if p.returncode != 0 or not os.path.exists(out):
             print(f"INCONCLUSIVE property={prop}: engine M failed: {p.stderr[-800:]}", flush=True)
             return rc if rc == 1 else 2
